@@ -109,14 +109,14 @@ def run_line(d, K, col, iback_entry, m, iters, scratch_U=None, generic_asm=False
     return X, dict(zip(params, args)), calls[0], x, wbv
 
 
-def scratch_unassigned(d, K_unused, col):
+def scratch_unassigned(d, K_unused, col, iback_entry=0):
     """generic assembly iteration mg+1 (mg constrained by the loop range only, all three branches of
     blocks_to_amat under guards, scratch arrays fully havocked): yields the write sets W(mg) and the
     positions of middle/left that an iteration never assigns"""
     K = KEnv(pec=True)
     K.hyps = K.hyps + [K.n[AX[d]] >= 3]
     m = z3.Int('mg')
-    X, argmap, call, x, wbv = run_line(d, K, col, 0, m, [m + 1], scratch_U=None, generic_asm=True)
+    X, argmap, call, x, wbv = run_line(d, K, col, iback_entry, m, [m + 1], scratch_U=None, generic_asm=True)
     ent = X.snap['asm:entry']['loc']
     out = {}
     for name in ('middle', 'left'):
@@ -143,8 +143,9 @@ def task_line(d, direction, case):
     m = z3.Int('m')
     chyps, iters, rows = CASES[case](m, n_d)
     K.hyps = K.hyps + chyps + [n_d >= 3]
-    U, zero_ok, X0 = scratch_unassigned(d, K, col)
     ibe = 0 if direction == 'backward' else 1
+    # the preliminary generic-iteration run uses the same sweep direction: its path condition is conjoined with the main run's below
+    U, zero_ok, X0 = scratch_unassigned(d, K, col, ibe)
     X, argmap, call, x, wbv = run_line(d, K, col, ibe, m, iters, scratch_U=U)
     env = call['env']
     pos = {k: env[k] for k in POSVARS[d]}
